@@ -128,7 +128,15 @@ func Classic(r *vlib.Rand, nano bool, small bool) *File {
 		case 2:
 			ns = r.Intn(1000) // below one microsecond
 		}
-		ci := gopacket.CaptureInfo{Timestamp: time.Unix(sec, int64(ns)).UTC(), CaptureLength: len(d), Length: len(d)}
+		if sec > 1<<32-1 {
+			sec = 1<<32 - 1 // the classic format has 32 bits for the seconds
+		}
+		ts := time.Unix(sec, int64(ns)).UTC()
+		if r.Chance(1, 10) {
+			es, en := edgeTime(r, false) // the first seconds of the epoch, the 2^31 and 2^32 second marks
+			ts = time.Unix(es, int64(en)).UTC()
+		}
+		ci := gopacket.CaptureInfo{Timestamp: ts, CaptureLength: len(d), Length: len(d)}
 		if r.Chance(1, 3) {
 			ci.Length += r.Intn(3000) // snapped packet
 			f.Features["snapped"] = true
@@ -285,7 +293,12 @@ func NgFile(r *vlib.Rand, small bool, libpcapSafe bool) *File {
 		if r.Chance(1, 10) {
 			ns = int64(r.U64() >> 1) // anywhere in 1970..2262
 		}
-		ci := gopacket.CaptureInfo{Timestamp: time.Unix(0, ns).UTC(), CaptureLength: len(d), Length: len(d), InterfaceIndex: r.Intn(len(f.Ifaces))}
+		ts := time.Unix(0, ns).UTC()
+		if r.Chance(1, 10) {
+			es, en := edgeTime(r, true)
+			ts = time.Unix(es, int64(en)).UTC()
+		}
+		ci := gopacket.CaptureInfo{Timestamp: ts, CaptureLength: len(d), Length: len(d), InterfaceIndex: r.Intn(len(f.Ifaces))}
 		if r.Chance(1, 3) {
 			ci.Length += r.Intn(3000)
 			f.Features["snapped"] = true
@@ -318,4 +331,15 @@ func Gen(r *vlib.Rand, small bool) *File {
 		return Classic(r, true, small)
 	}
 	return NgFile(r, small, false)
+}
+
+// edgeTime picks a timestamp at the edges of the representable range: within the first two seconds after the epoch and
+// around the 2^31 and 2^32 second marks, with sub-second parts at both ends of the second.
+func edgeTime(r *vlib.Rand, wide bool) (sec int64, ns int) {
+	secs := []int64{0, 0, 0, 1, 2, 1<<31 - 1, 1 << 31, 1<<32 - 1}
+	if wide {
+		secs = append(secs, 1<<32, 1<<32+1)
+	}
+	nss := []int{0, 1, 999, 1000, 1001, 999999, 1000000, 500000000, 999999000, 999999999}
+	return secs[r.Intn(len(secs))], nss[r.Intn(len(nss))]
 }
